@@ -27,7 +27,8 @@ Scope
   sampled     Seeded random objects beyond the small scope (up to 7 nodes, hyperedges of size up to 5, up to 6 records,
               random nested metadata, isolated nodes, repeated node sets across times / layers, weight 0 excluded),
               objects whose hypergraph metadata was replaced through set_hypergraph_metadata (so it lacks the
-              "weighted" entry the constructor puts there), random .hgr files (<= 8 vertices, <= 6 hyperedges) and
+              "weighted" entry the constructor puts there), objects that went through an insert-then-remove detour (a
+              node, a hyperedge) before being saved, random .hgr files (<= 8 vertices, <= 6 hyperedges) and
               random HIF documents (<= 6 nodes, <= 3 edges).
 Oracle
   Round trip: the deep snapshot of the saved object taken through the public API only (type, is_weighted, get_nodes
@@ -151,6 +152,8 @@ def spec_desc(spec, **extra):
          "r": [[r["e"], r.get("t", r.get("l")), r.get("w")] for r in spec["records"]], "md": zlib.crc32(md.encode())}
     if spec.get("hmeta_replaced"):
         d["hr"] = 1
+    if spec.get("detour"):
+        d["dt"] = 1
     d.update(extra)
     return d
 
@@ -329,10 +332,63 @@ def build(spec):
         h.add_node(n, metadata=copy.deepcopy(md))
     for r in spec["records"]:
         add_edge(h, kind, r)
+    if spec.get("detour"):
+        detour(h, spec, len(spec["records"]))
     fix_node_metadata(h, spec["nodes"])
     if spec.get("hmeta_replaced"):
         h.set_hypergraph_metadata(copy.deepcopy(spec["hmeta"]))
     return h
+
+
+def extra_record(spec, salt=0):
+    """A record over the nodes of the description that the description does not contain (None if there is none)."""
+    kind = spec["kind"]
+    labels = [n for n, _ in spec["nodes"]]
+    keys = {rec_key(kind, r) for r in spec["records"]}
+    w = [4, 1.5, 9][salt % 3] if spec["weighted"] else None
+    md = copy.deepcopy(EDGE_MD[(salt + 1) % len(EDGE_MD)])
+    if not labels:
+        return None
+    if kind == "T":
+        return {"e": _rot(labels, salt)[:max(1, len(labels) - salt % 2)], "t": 31, "w": w, "md": md}
+    if kind == "M":
+        return {"e": _rot(labels, salt)[:max(1, len(labels) - salt % 2)], "l": "zz", "w": w, "md": md}
+    if kind == "H":
+        cands = [list(c) for k in range(len(labels), 0, -1) for c in itertools.combinations(labels, k)][:40]
+        cands = [c for c in cands if tuple(sorted(c)) not in keys]
+        return {"e": _rot(cands[salt % len(cands)], salt), "w": w, "md": md} if cands else None
+    cands = [[[a], [b]] for a in labels for b in labels if a != b and ((a,), (b,)) not in keys]
+    return {"e": cands[salt % len(cands)], "w": w, "md": md} if cands else None
+
+
+def detour(h, spec, salt=0):
+    """Insert-then-remove detours on a built object (a new isolated node, a new hyperedge over existing nodes).
+    Each detour is first tried on a deep copy; one whose mutators raise there is left out (C02-C04's business).
+    Whether the content is still the intended one afterwards is checked by the caller."""
+    kind = spec["kind"]
+    labels = [n for n, _ in spec["nodes"]]
+    z = "zz" if (labels and isinstance(labels[0], str)) else 999
+
+    def node_detour(x):
+        x.add_node(z, metadata={"tmp": salt})
+        x.remove_node(z)
+
+    def edge_detour(x):
+        add_edge(x, kind, r)
+        remove_edge(x, kind, r)
+
+    done = []
+    r = extra_record(spec, salt)
+    for name, step in (("node", node_detour), ("hyperedge", edge_detour)):
+        if name == "hyperedge" and r is None:
+            continue
+        try:
+            step(copy.deepcopy(h))
+        except Exception:
+            continue
+        step(h)
+        done.append(name)
+    return done
 
 
 def snapshot(h):
@@ -811,7 +867,7 @@ def run(ctx):
             "record counts %r (n, k) x {.json, .hgx}" % (pl,))
         # ---- round trips, random
         rng = random.Random(ctx.seed * 7919 + 6)
-        n_rand = 200 if quick else 1500
+        n_rand = 200 if quick else 3000
         for kind in "HDTM":
             for weighted in (False, True):
                 for labelkind in ("int", "str"):
@@ -819,6 +875,8 @@ def run(ctx):
                         spec = random_spec(rng, kind, weighted, labelkind)
                         if j % 10 == 9:
                             spec["hmeta_replaced"] = True
+                        if j % 4 == 1:
+                            spec["detour"] = True
                         _rt(ctx, rep, spec, tmp)
         # ---- hMETIS
         gen = hgr_files_exhaustive(4, lambda v: 3) if quick else hgr_files_exhaustive(5, lambda v: 4 if v <= 4 else 3)
